@@ -368,6 +368,12 @@ class Enc:
             return rest(z3.ForAll([x], z3.Implies(z3.Select(a, x), z3.Select(b, x))), 2)
         if name == 'insert' and need(2):
             return rest(z3.Store(tr(args[1]), tr(args[0]), z3.BoolVal(True)), 2)
+        if name in ('real_closed_interval', 'real_open_interval', 'real_lopen_interval', 'real_ropen_interval') and need(2):
+            lo, hi = tr(args[0]), tr(args[1])
+            x = self.fresh(RealType, 'iv')
+            lc = (lo <= x) if name in ('real_closed_interval', 'real_ropen_interval') else (lo < x)
+            hc = (x <= hi) if name in ('real_closed_interval', 'real_lopen_interval') else (x < hi)
+            return rest(z3.Lambda([x], z3.And(lc, hc)), 2)
         if name in ('Some', 'The', 'sqrt', 'nat_divide', 'nat_modulus'):
             # choice-like: uninterpreted is sound for validity only if congruence holds, which it does
             pass
@@ -568,6 +574,7 @@ class Fin:
         if name in PY_CONSTS:
             val = self.const_value(h)
             return rest(val, 0)
+        raise Unsupported('finite encoding: constant %s' % name)
         f = self.symbol(h)
         fT = T
         for a in args:
@@ -575,6 +582,9 @@ class Fin:
             fT = fT.args[1]
         return f
 
+
+# constants that really are unspecified (any interpretation is a model)
+FREE_CONSTS = ()
 
 PY_CONSTS = ('true', 'false', 'neg', 'conj', 'disj', 'implies', 'equals', 'all', 'exists', 'exists1', 'IF', 'Let',
              'member', 'collect', 'empty_set', 'univ', 'fun_upd', 'xor')
@@ -744,7 +754,8 @@ def ground_eval(t):
 # ============================================================ front end
 
 class Oracle:
-    def __init__(self, timeout_ms=2000, kmax=3):
+    def __init__(self, timeout_ms=2000, kmax=3, second_solver=False):
+        self.second_solver = second_solver
         self.timeout_ms = timeout_ms
         self.kmax = kmax
         self.calls = 0
@@ -782,12 +793,18 @@ class Oracle:
                 return Verdict('valid', 'array')
             why = 'array:' + r
             arr_model = s.model() if r == 'sat' else None
+            s_array = s
         except Unsupported as e:
             why = 'array-unsupported:%s' % e
             r, arr_model = 'unknown', None
         except z3.Z3Exception as e:
             why = 'array-z3error:%s' % str(e)[:60]
             r, arr_model = 'unknown', None
+        # A constant of the theory that the encoding left uninterpreted may have a definition or axioms the
+        # counter-model ignores: such a model proves nothing.  (Leaving it uninterpreted is sound for `valid` only.)
+        loose = sorted(n for n in getattr(enc, 'used_uninterp', ()) if n not in FREE_CONSTS) if r == 'sat' else []
+        if loose:
+            return Verdict('unknown', 'counter-model relies on uninterpreted constants %s' % loose)
         # finite fallback / confirmation (only types built from type variables, bool, fun, set)
         try:
             all_unsat = True
@@ -832,8 +849,35 @@ class Oracle:
             ok = self._confirm_arith(hyps, concl, arr_model, enc)
             if ok:
                 return Verdict('invalid', 'array+qf-eval', model=ok)
+            if self.second_solver:
+                # quantified arithmetic: the evaluator cannot enumerate; ask an independent solver (cvc5) the same question
+                r2 = self._second_solver(s_array)
+                if r2 == 'sat':
+                    return Verdict('invalid', 'array+cvc5', model={'note': 'z3 and cvc5 both find a counter-model', 'z3_model': str(arr_model)[:300]})
+                return Verdict('unknown', why + '; model not confirmed (second solver: %s)' % r2)
             return Verdict('unknown', why + '; model not confirmed')
         return Verdict('unknown', why)
+
+    def _second_solver(self, solver):
+        import subprocess
+        import tempfile
+        import os
+        txt = solver.to_smt2()
+        if 'lambda' in txt:
+            return 'unsupported (lambda)'
+        with tempfile.NamedTemporaryFile('w', suffix='.smt2', delete=False) as f:
+            f.write('(set-logic ALL)\n' + txt)
+            path = f.name
+        try:
+            pr = subprocess.run(['cvc5', '--tlimit=3000', path], capture_output=True, text=True, timeout=6)
+            out = pr.stdout.strip().splitlines()
+            if out and out[0] in ('sat', 'unsat') and '(error' not in pr.stdout:
+                return out[0]
+            return 'unknown'
+        except (subprocess.TimeoutExpired, OSError):
+            return 'unknown'
+        finally:
+            os.unlink(path)
 
     def _decode_model(self, fin, terms, m):
         interp = {}
